@@ -346,3 +346,25 @@ def PointTier_eraseRegion(self, start, end, collisionMode, doShrink):
         moved = [p if p.time < start else Point(p.time - d, p.label) for p in kept]
         return PointTier(self.name, moved, self.minTimestamp, self.maxTimestamp - d)
     return PointTier(self.name, kept, self.minTimestamp, self.maxTimestamp)
+
+
+def PointTier_insertEntry(self, entry, collisionMode, collisionReportingMode):
+    """C11 for point tiers: collision = a point at the same time; 'merge' joins the labels old-new"""
+    if collisionMode not in COLLISION_MODES:
+        raise errors.WrongOption("collisionMode", collisionMode, COLLISION_MODES)
+    if collisionReportingMode not in REPORTING_MODES:
+        raise errors.WrongOption("collisionReportingMode", collisionReportingMode, REPORTING_MODES)
+    new = Point(entry[0], strip(entry[1]))
+    i = first_index(self._entries, lambda p: p.time == new.time)
+    if i < 0:
+        E2 = sorted(list(self._entries) + [new])
+    elif collisionMode == "replace":
+        E2 = sorted(remove_at(self._entries, i) + [new])
+    elif collisionMode == "merge":
+        old = self._entries[i]
+        E2 = sorted(remove_at(self._entries, i) + [Point(new.time, old.label + "-" + new.label)])
+    else:
+        raise errors.CollisionError("")
+    self._entries = E2
+    self.minTimestamp = min(self.minTimestamp, new.time)
+    self.maxTimestamp = max(self.maxTimestamp, new.time)
